@@ -157,6 +157,20 @@ func jitter() {
 	}
 }
 
+// failingResponse is a ResponseWriter whose k-th and later writes fail.
+type failingResponse struct {
+	*httptest.ResponseRecorder
+	k, n int
+}
+
+func (f *failingResponse) Write(p []byte) (int, error) {
+	f.n++
+	if f.n >= f.k {
+		return 0, fmt.Errorf("client went away")
+	}
+	return f.ResponseRecorder.Write(p)
+}
+
 type scrapeSample struct {
 	path       string
 	linesTotal int64
@@ -183,7 +197,7 @@ type runResult struct {
 
 func oneRun(t *testing.T, r *ev.Run, g *ev.RNG, run int, withReload bool) runResult {
 	var res runResult
-	nlines := g.Range(ev.Pick(700, 1500), ev.Pick(1800, 4000))
+	nlines := g.Range(ev.Pick(500, 1500), ev.Pick(1200, 3000))
 	words := []string{"alpha", "beta", "gamma", "delta", "eps", "zeta", "eta", "theta", "iota", "kappa"}
 	store := metrics.NewStore()
 	in := make(chan *logline.LogLine)
@@ -344,6 +358,23 @@ func oneRun(t *testing.T, r *ev.Run, g *ev.RNG, run int, withReload bool) runRes
 		}
 		return ""
 	})
+	// clients that go away in the middle of a response (write error at the k-th
+	// write): whatever the handler leaves behind must not touch the metrics
+	// any more once it has returned
+	var abortN atomic.Int64
+	for _, h := range []string{"varz", "graphite"} {
+		h := h
+		exportLoop(h+"-aborted", func() []byte {
+			fw := &failingResponse{ResponseRecorder: httptest.NewRecorder(), k: int(1 + abortN.Add(1)%7)}
+			req := httptest.NewRequest("GET", "/"+h, nil)
+			if h == "varz" {
+				e.HandleVarz(fw, req)
+			} else {
+				e.HandleGraphite(fw, req)
+			}
+			return nil
+		}, func(out []byte, s *scrapeSample) string { return "" })
+	}
 	for _, format := range []string{"statsd", "collectd"} {
 		format := format
 		exportLoop("push-"+format, func() []byte {
@@ -808,7 +839,7 @@ func raceReports() (raw int, distinct map[string]string) {
 func TestC11(t *testing.T) {
 	r := ev.Start(t, "C11", "exploration")
 	defer r.Finish()
-	r.Rule("short runs (quick: 6 A/B + 6 C; thorough: 60 + 30), each a fresh Store + real runtime.Runtime with 3 compiled programs (scalar and dimensioned counters, gauge written with unique values, histogram, text, float, limit + del-after) fed 1.5-4k lines while, concurrently, a tight Store.Gc loop, six export loops (Prometheus Write, /json, /varz, /graphite, statsd and collectd push path) and — in sub-workload B — a reloader doing comment-only edits run under the race detector with GOMAXPROCS in {2,4,16} and PRNG jitter at the VM line hook. Oracles: race reports with mtail frames; counters equal the increments performed; per-path monotone counter samples <= final; gauge samples were written; histogram +Inf bucket == count; porcupine register/counter linearizability of one datum under 4 clients. Non-trivial: a run in which >=1 export and >=1 GC pass began while a VM line was executing; distinct by run index.")
+	r.Rule("short runs (quick: 6 A/B + 6 C; thorough: 60 + 30), each a fresh Store + real runtime.Runtime with 3 compiled programs (scalar and dimensioned counters, gauge written with unique values, histogram, text, float, limit + del-after) fed 1.5-4k lines while, concurrently, a tight Store.Gc loop, eight export loops (Prometheus Write, /json, /varz, /graphite, /varz and /graphite with a client that goes away at the k-th write, statsd and collectd push path) and — in sub-workload B — a reloader doing comment-only edits run under the race detector with GOMAXPROCS in {2,4,16} and PRNG jitter at the VM line hook. Oracles: race reports with mtail frames; counters equal the increments performed; per-path monotone counter samples <= final; gauge samples were written; histogram +Inf bucket == count; porcupine register/counter linearizability of one datum under 4 clients. Non-trivial: a run in which >=1 export and >=1 GC pass began while a VM line was executing; distinct by run index.")
 	r.Assume("the race detector only sees races on accesses this workload performs; a clean run is not race-freedom", "reloads are comment-only so declarations (and therefore data) are carried over")
 	lh := func(id uint64, name string, l *logline.LogLine, phase int) {
 		if phase == 0 {
